@@ -1022,7 +1022,8 @@ pub fn check_harness<H: Harness>(h: &H, cfg: &RunCfg) -> PartResult {
                     continue;
                 }
                 if let Some(d) = native_violation(g, h.tol()) {
-                    let gross = native_violation_floor(g, h.tol().max(1e-6), gross_floor).is_some();
+                    // for bit-exact properties (tolerance 0) every native difference is a real one
+                    let gross = h.tol() == 0.0 || native_violation_floor(g, h.tol().max(1e-6), gross_floor).is_some();
                     failed_natively.insert(g.name.clone(), (*p, full.clone(), format!("{} (at the point the solver produced for path {})", d, p), gross));
                 }
             }
